@@ -112,7 +112,10 @@ def run_race(cfg, res):
       write(apath, newa)
       writer.reloadStorageSchemas()          # what the two LoopingCalls do on the reactor thread
       writer.reloadAggregationSchemas()
-    ops = [('store', nm, 999900) for nm in names] + [('call', reload_now), ('sleep', 3.0), ('stop',)]
+    # series first seen after both reloads have completed: whatever the writer is in the middle of, they are created under
+    # the new files
+    late = ['servers.late1.cpu.user', 'late.b.count', 'stats.late']
+    ops = [('store', nm, 999900) for nm in names] + [('call', reload_now)] + [('store', nm, 999900) for nm in late] + [('sleep', 3.0), ('stop',)]
     seen = set()
 
     def one(policy, desc):
@@ -137,6 +140,19 @@ def run_race(cfg, res):
         if (xff, meth) not in allowed_a:
           res.violation('race/aggregation-from-neither-file', 'metric %r created with %r; old file says %r, new file says %r [%s dev=%r]' % (
             nm, (xff, meth), allowed_a[0], allowed_a[1], desc, h.deviations), wit)
+      for nm in late:
+        res.count('race_create_evaluations')
+        if nm not in creates:
+          # its only datapoint was drained between the writer's create loop and the drain of the same round: carbon drops
+          # that and counts it (droppedCreates) - nothing was created under any file
+          res.count('late_series_dropped_before_their_create')
+          continue
+        ret, xff, meth = creates[nm]
+        want_r, want_a = refs.retentions_for(rn, nm), tuple(refs.aggregation_for(an, nm))
+        if [tuple(x) for x in ret] != [tuple(x) for x in want_r] or (xff, meth) != want_a:
+          res.violation('race/created-under-replaced-files', 'metric %r, first seen after both reloads had completed, was created with %r / %r; the files '
+                        'in force say %r / %r [%s dev=%r]' % (nm, ret, (xff, meth), want_r, want_a, desc, h.deviations),
+                        dict(old=olds, new=news, metric=nm, deviations=h.deviations))
       key = (case, h.trace_hash)
       if key not in seen:
         seen.add(key)
